@@ -60,7 +60,8 @@ func (f *Select) Call(s *slip.Scope, args slip.List, depth int) (result slip.Obj
 		ci      int
 	)
 	d2 := depth + 1
-	if f.prepClauses(s, args, d2) {
+	args, refl := f.prepClauses(s, args, d2)
+	if refl {
 		return f.reflectClauses(s, args, d2)
 	}
 	for _, a := range args {
@@ -108,18 +109,26 @@ func (f *Select) Call(s *slip.Scope, args slip.List, depth int) (result slip.Obj
 	return
 }
 
-func (f *Select) prepClauses(s *slip.Scope, args slip.List, depth int) bool {
+// prepClauses evaluates the channel form of each clause. The clauses returned
+// are copies with the channel in place of its form, the clauses of the select
+// form itself are left as they are so the next evaluation of the form
+// evaluates the channel forms again.
+func (f *Select) prepClauses(s *slip.Scope, args slip.List, depth int) (slip.List, bool) {
 	var (
 		ccnt int
 		tcnt int
 		refl bool
 	)
-	for _, a := range args {
-		clause, ok := a.(slip.List)
-		if !ok || len(clause) == 0 {
+	prepared := make(slip.List, len(args))
+	for i, a := range args {
+		form, ok := a.(slip.List)
+		if !ok || len(form) == 0 {
 			slip.TypePanic(s, depth, "clause", a, "list")
 		}
-		clause[0] = slip.EvalArg(s, clause, 0, depth)
+		clause := make(slip.List, len(form))
+		copy(clause, form)
+		clause[0] = slip.EvalArg(s, form, 0, depth)
+		prepared[i] = clause
 		switch clause[0].(type) {
 		case Channel:
 			ccnt++
@@ -129,7 +138,7 @@ func (f *Select) prepClauses(s *slip.Scope, args slip.List, depth int) bool {
 			refl = true
 		}
 	}
-	return refl || maxTimeChan < tcnt || maxSlipChan < ccnt
+	return prepared, refl || maxTimeChan < tcnt || maxSlipChan < ccnt
 }
 
 func (f *Select) reflectClauses(s *slip.Scope, clauses slip.List, depth int) (result slip.Object) {
